@@ -102,6 +102,12 @@ CHECKS = {
          '4 800 (quick) / 86 000 (thorough) valid (program, table) pairs rendered in both modes; 1 550 / 28 000 programs with one invalid expression planted at a random slot in one of five forms (alone, first or later pipe alternative, under not:, string: part, ${} part); each planted program rendered non-strict under three tables: ~2 000 renderings where the model reaches the slot (error text, token and offset compared with the strict error) and ~2 500 where it is dead (false condition, empty repeat, cancelled case, replace, omitted tag, earlier failure, earlier alternative won) whose output and log must equal the model\'s.',
          'Trusted: reference model for reachability; when both sides raise at the planted slot the real log need only be a prefix of the model\'s (parts of the same argument written before the invalid text).',
          'DESIGN.md §3 C19'),
+ 'C12': ('planted-failures+invariant-hooks',
+         'runtime monitor M-exc at the except clause of the harness over planted render failures: exception class / RenderError / args / attributes preserved, message records (expression, file, line, column) parsed and compared with the serialiser\'s knowledge of the failing occurrence and its call-site chain',
+         'exploration',
+         '~4 000 (quick) / ~65 000 (thorough) planted failures: expression occurrences the reference model reaches in generated string templates (every statement site, multi-line and non-ASCII lead text) and the five occurrence positions of a randomised three-file load: / use-macro / fill-slot chain, each raising one of ten classes (builtin, two-argument custom with attribute, __str__ override, UnicodeDecodeError, RecursionError, KeyboardInterrupt, SystemExit, GeneratorExit).',
+         'Trusted: the regex that parses message records; the C01 generator and model for reachability; file names compared on their last 40 characters.',
+         'DESIGN.md §3 C12'),
 }
 NOT_YET = {}
 
